@@ -3,6 +3,7 @@ package main
 import (
 	"fmt"
 	"go/ast"
+	"go/printer"
 	"go/token"
 	"strings"
 )
@@ -326,6 +327,9 @@ func (x *xtr) block(stmts []ast.Stmt, k func() string) string {
 		}
 		return joinLines(x.assign(t), rest())
 	case *ast.IncDecStmt, *ast.ExprStmt:
+		if es, ok := s.(*ast.ExprStmt); ok && x.isLogCall(es) {
+			return rest() // a logging call chain (spec.LogCalls): explicitly not translated
+		}
 		return joinLines(x.simpleStmt(s), rest())
 	case *ast.IfStmt:
 		return x.ifStmt(t, rest)
@@ -364,6 +368,22 @@ func (x *xtr) simpleStmt(s ast.Stmt) string {
 	}
 	x.bad(s, "statement %T in this position", s)
 	return ""
+}
+
+// an expression statement whose text starts with a prefix of spec.LogCalls
+func (x *xtr) isLogCall(es *ast.ExprStmt) bool {
+	if len(x.sp.LogCalls) == 0 {
+		return false
+	}
+	var b strings.Builder
+	printer.Fprint(&b, x.fset, es)
+	text := strings.Join(strings.Fields(b.String()), " ")
+	for _, p := range x.sp.LogCalls {
+		if strings.HasPrefix(text, p) {
+			return true
+		}
+	}
+	return false
 }
 
 // ---- if
@@ -414,7 +434,31 @@ func (x *xtr) ifStmt(t *ast.IfStmt, rest func() string) string {
 		if s, ok := x.bucketPutIf(t, rest); ok {
 			return s
 		}
-		x.bad(t, "if with an init statement (only `if err := bucket.Put(k, v); err != nil { … return … }`)")
+		if a, ok := t.Init.(*ast.AssignStmt); ok && a.Tok == token.DEFINE {
+			if _, failing := x.failingCall(a); !failing {
+				// `if v, ok := m[k]; ok {..}`: the definition first, then the test; the names are in scope of the `if` only
+				saved := x.env
+				x.env = copyEnv(saved)
+				pre := x.assign(a)
+				var names []string
+				for _, l := range a.Lhs {
+					if id, ok := l.(*ast.Ident); ok {
+						names = append(names, id.Name)
+					}
+				}
+				c := *t
+				c.Init = nil
+				r := joinLines(pre, x.ifStmt(&c, func() string {
+					for _, n := range names {
+						delete(x.env, n)
+					}
+					return rest()
+				}))
+				x.env = saved
+				return r
+			}
+		}
+		x.bad(t, "if with an init statement (only `if err := bucket.Put(k, v); err != nil { … return … }` and `if v.. := e; cond`)")
 	}
 	if pre, ok := x.mutCond(t); ok {
 		// `if s.f.M(args) {` with a mutating method M of the opaque field f: the call first, then the test
@@ -579,6 +623,9 @@ func (x *xtr) assign(t *ast.AssignStmt) string {
 				if ty.k == kConst {
 					ty = tInt
 				}
+				if ty.k == kFConst {
+					ty = tF64
+				}
 				name, n := id.Name, l
 				decl = append(decl, func() { x.declare(n, name, ty) })
 			} else {
@@ -619,6 +666,9 @@ func (x *xtr) assign(t *ast.AssignStmt) string {
 			v := x.expr(rhs)
 			if v.ty.k == kConst {
 				v = xval{s: x.co(rhs, v, tInt), ty: tInt}
+			}
+			if v.ty.k == kFConst {
+				v = xval{s: x.co(rhs, v, tF64), ty: tF64} // Go: an untyped floating-point constant defaults to float64
 			}
 			if v.ty.k == kNil {
 				x.bad(t, "definition from nil")
@@ -805,6 +855,19 @@ func (x *xtr) assignTuple(t *ast.AssignStmt) string {
 	var rtys []*xty
 	var rs string
 	switch r := t.Rhs[0].(type) {
+	case *ast.TypeAssertExpr: // p, ok := v.(T) on a value of an opaque (interface) type: the abstract function of spec.Asserts
+		v := x.expr(r.X)
+		a, ok := x.asserts[exprText(r.Type)]
+		if v.ty.k != kOpaque || !ok || len(t.Lhs) != 2 || r.Type == nil {
+			x.bad(t, "type assertion (only the comma-ok form on an opaque value, with the target type listed in spec.Asserts)")
+		}
+		nv := strings.SplitN(a, "=", 2)
+		if nv[1] != v.ty.name {
+			x.bad(t, "type assertion on a value of type %s, spec.Asserts says %s", v.ty.name, nv[1])
+		}
+		tt := x.goTy(r.Type)
+		rtys = []*xty{tt, tBoolx}
+		rs = fmt.Sprintf("(match %s %s with | some v_ => (v_, true) | none => (%s, false))", nv[0], paren(v.s), x.zero(t, tt))
 	case *ast.IndexExpr: // v, ok := m[k]
 		m := x.expr(r.X)
 		if m.ty.k != kMap || len(t.Lhs) != 2 {
@@ -824,6 +887,11 @@ func (x *xtr) assignTuple(t *ast.AssignStmt) string {
 		if ft, ok := x.known[selName(r.Fun)]; ok {
 			rtys = ft.results
 			rs = x.applyFn(r, selName(r.Fun), ft)
+			break
+		}
+		if fn, ft, ok := x.knownMethod(r); ok {
+			rtys = ft.results
+			rs = x.applyFn(r, fn, ft)
 			break
 		}
 		var ok bool
